@@ -294,6 +294,20 @@ func (s *scn) genSpecs() {
 		s.specs[k].exit = "never"
 		s.specs[k].heldRun = true
 		s.specs[k].stopBlocks = s.r.Bool()
+	case "lateerr":
+		// a runnable ignores Stop and cancellation until after the shutdown timeout has ended the wait and Run() /
+		// Shutdown() have returned; THEN its Run returns a real error ("nothing a runnable does afterwards can
+		// panic the process")
+		s.shutdownShort = true
+		s.specs = make([]spec, 1+s.r.Intn(3))
+		for i := range s.specs {
+			s.specs[i] = spec{exit: "sig", stopBlocks: false, stateable: s.r.Chance(1, 3)}
+		}
+		for k := 0; k < 1+s.r.Intn(2); k++ {
+			j := s.r.Intn(len(s.specs))
+			s.specs[j].exit = "free"
+			s.specs[j].heldRun = true
+		}
 	case "finalstate":
 		// a state monitor that lags behind its runnable when shutdown stores the final state
 		s.specs = make([]spec, 1+s.r.Intn(2))
@@ -1030,7 +1044,51 @@ func (s *scn) runNeverReturn() {
 	s.snap()
 }
 
+// runLateErr: the shutdown gives up at its timeout; afterwards the stuck runnables return real errors.
+func (s *scn) runLateErr() {
+	s.startRun()
+	s.rec.WaitQuiescent(3 * time.Second)
+	for i, sp := range s.specs {
+		if sp.stateable {
+			s.readySet[i] = true
+			s.cores[i].SetReady(true)
+		}
+	}
+	s.rec.WaitFor(fmt.Sprintf("RunCall %d", len(s.specs)-1), 3*time.Second)
+	s.quiesce()
+	s.shutdownTriggered = true
+	switch s.r.Intn(3) {
+	case 0:
+		s.apiCall("Shutdown", s.sup.Shutdown)
+	case 1:
+		s.apiCall("Sig term", func() { s.sup.SendSignal(syscall.SIGTERM) })
+	default:
+		s.parentCancelled = true
+		s.rec.Emit("ParentCancel")
+		s.pcancel()
+	}
+	if !s.settle(1500*time.Millisecond, true) { // the shutdown timeout is 120 ms
+		s.rec.Emit("Overdue late-error scenario: 1.5s after the trigger (shutdown timeout 120ms): Run()-returned=%v still-blocked=%s",
+			s.runReturned(), s.blockedOps())
+	}
+	s.quiesce()
+	s.snap()
+	// now the stuck runnables fail, one after the other
+	for i, sp := range s.specs {
+		if sp.heldRun && !s.runReleased[i] && s.has(fmt.Sprintf("RunCall %d", i)) {
+			s.runReleased[i] = true
+			s.cores[i].RunRelease <- s.mkErr(false)
+			s.quiesce()
+		}
+	}
+	s.snap()
+}
+
 func (s *scn) run() {
+	if s.family == "lateerr" {
+		s.runLateErr()
+		return
+	}
 	if s.family == "shutdownfirst" {
 		s.runShutdownFirst()
 		return
@@ -1223,7 +1281,7 @@ func main() {
 		child(*seed, *family)
 		return
 	}
-	fams := []string{"mixed", "startup", "timeout", "state", "reload", "sdsender", "big", "gatefail", "finalstate", "errs", "earlyshutdown", "latesub", "subclose", "gatecancel", "subentry", "slowstop", "shutdownfirst"}
+	fams := []string{"mixed", "startup", "timeout", "state", "reload", "sdsender", "big", "gatefail", "finalstate", "errs", "earlyshutdown", "latesub", "subclose", "gatecancel", "subentry", "slowstop", "shutdownfirst", "neverreturn", "lateerr"}
 	type job struct {
 		seed uint64
 		fam  string
